@@ -123,6 +123,7 @@ class _Quantifier(_UnaryOperator):
             return 0.0
 
         df, grouped = self._get_groupings()
+        self._sync_neurons()
 
         bound = None
         if not self.fully_grounded:
@@ -169,6 +170,7 @@ class _Quantifier(_UnaryOperator):
             return 0.0
 
         df, grouped = self._get_groupings()
+        self._sync_neurons()
         bounds = input_bounds.detach().clone()
         for indices in grouped:
             grounding = tuple(df.iloc[indices[0], :].tolist()[:-1])
@@ -356,6 +358,14 @@ class _Quantifier(_UnaryOperator):
         for neuron in self.neurons:
             neuron.flush()
         self._stack_neurons()
+
+    def _sync_neurons(self):
+        r"""Bounds that a parent formula has proved for a grounding are written to the
+        quantifier's table; carry them over to the per-group neurons, which `upward` and
+        `downward` work on and from which the table is rebuilt."""
+        for i, neuron in enumerate(self.neurons):
+            if i < self.neuron.bounds_table.shape[0]:
+                neuron.aggregate_bounds([0], self.neuron.bounds_table[i : i + 1])
 
     def _stack_neurons(self):
         r"""One row per group of a partially quantified formula, kept in step with `groundings`."""
